@@ -313,9 +313,43 @@ def run(ctx):
     ok = dec_local is not None and f"self.acceptor_rcv_que.append(({dec_local}, {dparam}))" in [unparse(s) for s in walk_no_nested(wi) if isinstance(s, ast.Expr)]
     ctx.instance(R4, "_conn_socket_write_initiator[queues the decoded message with its bytes]", ok, "the initiator's frame is not queued as (decoded message, written bytes)", loc(wi))
     pa = repo.func(f"{T}.process_msg_acceptor")
-    popped = next(([unparse(e) for e in n.targets[0].elts] for n in walk_no_nested(pa) if isinstance(n, ast.Assign) and isinstance(n.targets[0], ast.Tuple)
-                   and ".pop(0 if index is None else index)" in unparse(n.value) and "acceptor_rcv_que" in unparse(n.value)), None)
-    ok = popped is not None and len(popped) == 2 and f"await self.conn_accept._process_message({popped[0]}, {popped[1]})" in unparse(pa)
+    # every pop of the queue takes the head unless the caller named an index, and what it took goes to the acceptor's
+    # _process_message (on the CFG: the form of the loop / the place of the `index` test is free)
+    pg = CFG(pa)
+    pdom = pg.dominators(exc=False)
+    iparam = next((a.arg for a in pa.args.args[1:]), "index")
+    pops = []
+    for n in pg.nodes:
+        if n.kind == "stmt" and isinstance(n.ast, ast.Assign) and isinstance(n.ast.value, ast.Call) and isinstance(n.ast.value.func, ast.Attribute) \
+                and n.ast.value.func.attr == "pop" and "acceptor_rcv_que" in unparse(n.ast.value.func.value):
+            pops.append(n)
+    ok = bool(pops)
+    default_served = False
+    for n in pops:
+        fs_ = set()
+        for t_, lab_ in pg.guards(n.id, exc=False):
+            fs_ |= facts(t_, lab_ == "true")
+        named = (f"{iparam} is None", False) in fs_ or (f"{iparam} is not None", True) in fs_
+        a_ = n.ast.value.args[0] if n.ast.value.args else None
+        if a_ is None:
+            arg_ok = False  # pop() takes the newest
+        elif isinstance(a_, ast.Constant):
+            arg_ok = a_.value == 0
+        elif isinstance(a_, ast.IfExp):
+            arg_ok = unparse(a_) in (f"0 if {iparam} is None else {iparam}", f"{iparam} if {iparam} is not None else 0")
+        elif isinstance(a_, ast.Name) and a_.id == iparam:
+            arg_ok = named
+        else:
+            arg_ok = False
+        if not named:
+            default_served = True
+        tg = n.ast.targets[0]
+        pair = [unparse(e) for e in tg.elts] if isinstance(tg, ast.Tuple) and len(tg.elts) == 2 else None
+        handed = pair is not None and any(
+            m.kind == "stmt" and f"await self.conn_accept._process_message({pair[0]}, {pair[1]})" in unparse(m.ast) and n.id in pdom.get(m.id, set())
+            and not isinstance(m.ast, (ast.If, ast.While, ast.For)) for m in pg.nodes if m.ast is not None)
+        ok = ok and arg_ok and handed
+    ok = ok and default_served
     ctx.instance(R4, "process_msg_acceptor[FIFO hand-over]", ok, "queued frames are not handed to the acceptor in the order they were sent", loc(pa))
 
 
